@@ -47,6 +47,66 @@ fn first_diff_line(a: &str, b: &str) -> String {
     "outputs differ only in line terminators".into()
 }
 
+/// the same claim through the real binary: `pasfmt f` then `pasfmt --mode=check f` accepts, and a
+/// second in-place run rewrites nothing (bytes and mtime unchanged)
+fn cli_case(ctx: &Ctx, rng: &mut Rng, out: &mut CaseOut) {
+    use crate::cli::{self, Invocation, Scratch};
+    let scratch = Scratch::new(&ctx.work_dir, "c03");
+    for _ in 0..4 {
+        let w = common::well_formed(ctx, rng, 20);
+        let cfg = Cfg::sample_sane(rng);
+        let f = scratch.path.join(format!("f{}.pas", rng.below(10_000)));
+        if std::fs::write(&f, &w.text).is_err() {
+            continue;
+        }
+        let name = f.file_name().unwrap().to_string_lossy().to_string();
+        let run = |extra: &[&str]| {
+            let mut a = cfg.to_cli_args();
+            a.extend(extra.iter().map(|s| s.to_string()));
+            a.push(name.clone());
+            cli::run(Invocation { bin: &ctx.cli_bin, args: a, cwd: &scratch.path, stdin: None, env: vec![], as_nobody: false })
+        };
+        out.evals += 3;
+        out.count("cli.files_formatted_in_place");
+        let r1 = run(&[]);
+        if !r1.ok() {
+            out.count("cli.first_run_failed");
+            continue;
+        }
+        // fallback lines are a known finding of the library monitor; recognise them through the log
+        let fallback = r1.stderr_text().contains("No solution found") || r1.stderr_text().contains("Iteration limit reached");
+        let after1 = std::fs::read(&f).unwrap_or_default();
+        cli::age_file(&f);
+        let st = cli::stat(&f);
+        let rc = run(&["--mode", "check"]);
+        let r2 = run(&[]);
+        let after2 = std::fs::read(&f).unwrap_or_default();
+        let text1 = String::from_utf8_lossy(&after1).to_string();
+        let class = |c: &'static str| -> &'static str {
+            if fallback {
+                "wrap-fallback"
+            } else if text1.contains("'''") && super::wf::two_mlstr_in_statement(&text1) {
+                "second-literal-stale-indent"
+            } else if w.name.contains("in_child_lines") {
+                "reflow-child-cache"
+            } else {
+                c
+            }
+        };
+        if !rc.ok() {
+            out.violate("C03", class("cli-check-rejects-own-output"), format!("{} [{}] `pasfmt --mode=check` rejects the file pasfmt has just written: {}", w.name, cfg.short(), short(&rc.stderr_text(), 160)), &w.text, Some(&cfg));
+        }
+        if !r2.ok() || after2 != after1 {
+            out.violate("C03", class("cli-second-run-rewrites"), format!("{} [{}] a second in-place run changed the file ({} -> {} bytes)", w.name, cfg.short(), after1.len(), after2.len()), &w.text, Some(&cfg));
+        } else if cli::stat(&f) != st {
+            out.violate("C03", class("cli-second-run-rewrites"), format!("{} [{}] a second in-place run rewrote identical bytes (mtime/inode changed)", w.name, cfg.short()), &w.text, Some(&cfg));
+        }
+        if after1 != w.text.as_bytes() {
+            out.nontrivial.push(rng::hash_combine(rng::hash_bytes(&after1), rng::hash_str(&cfg.short())));
+        }
+    }
+}
+
 impl Prop for C03 {
     fn id(&self) -> &'static str {
         "C03"
@@ -57,9 +117,16 @@ impl Prop for C03 {
     fn rule(&self) -> &'static str {
         "well-formed inputs (data-test seeds incl. their expected outputs, grammar programs in decorated layouts) x sampled configurations, plus widths chosen adversarially around the widest line of F(x) (max, max-1, max+1); oracle: F(F(x)) == F(x) and F(F(F(x))) == F(F(x)) byte for byte. Non-trivial: F(x) != x and F(x) has >= 3 lines; distinct by hash of (F(x), configuration)."
     }
+    fn needs_cli(&self) -> bool {
+        true
+    }
     fn run_case(&self, ctx: &Ctx, idx: u64) -> CaseOut {
         let mut out = CaseOut::default();
         let mut rng = Rng::derive(ctx.seed, "C03", idx);
+        if idx % 25 == 24 && ctx.cli_bin.exists() {
+            cli_case(ctx, &mut rng, &mut out);
+            return out;
+        }
         for k in 0..BATCH {
             let mut w = common::well_formed(ctx, &mut rng, 30);
             let mut cfg = Cfg::sample_sane(&mut rng);
